@@ -29,7 +29,7 @@ ASSUMPTIONS = [
 
 FEAT = gen.feat(
     ann={"c": 6, "o": 1.2, "u": 1.0, "x": 0.6, "h": 0.5, "d": 0.6, "i": 0.2, "ph": 0.3, "ss": 0.3},
-    bodies={"next_try": 0.6, "leaf": 4, "next": 3.5, "rec": 2.0, "next2": 0.3, "rec_next": 0.8, "fnext": 0.0,
+    bodies={"next_try": 0.6, "leaf": 4, "next": 3.5, "rec": 2.0, "next2": 0.3, "rec_next": 0.8, "fnext": 0.0, "fcall": 0.8,
             "next_other": 0.3},
     arity=[(1, 5), (2, 2.5)], p_kw=0.08, p_optional=0.08, ncorpus=(3, 6), nmeth=(5, 9),
     p_dup_sig=0.0, p_prio=0.3, p_mixed_names=0.0, p_int_pos=0.05, p_type_pos=0.05,
@@ -105,6 +105,7 @@ def gen_scenario(seed, index):
             t["body"] = [rng.choice(["leaf", "next"])]
             spec["methods"][m + "t"] = t
     pool = list(spec["methods"])
+    uses_fn = any(m["body"][0] == "fcall" for m in spec["methods"].values())
     corpus = gen.gen_corpus(rng, spec, FEAT)
     model = Model(spec)
     ops = []
@@ -198,6 +199,8 @@ def gen_scenario(seed, index):
                 return out
             if node in ancestors(par) or par in model.nodes[node]["parents"]:
                 continue
+            if uses_fn and node == r:
+                continue  # (a by-name call puts the first root to use; keep it free of ancestors)
             inherited = {}
             for p in model.nodes[node]["parents"]:
                 inherited.update(model.effective(p))
@@ -262,6 +265,8 @@ def _create(w, model, spec, op):
         for m in op["mids"]:
             w.register(op["name"], m)
             model.nodes[op["name"]]["own"][sigkey(spec, m)] = [m, None]
+        if len(model.order) == 1:
+            w.mod.FN = w.funcs[op["name"]].dispatch  # the function that by-name calls reach
         return
     if k in ("copy", "variant") and op["src"] not in w.funcs:
         return
@@ -298,10 +303,30 @@ def execute(scen):
     label = scen["label"]
     stats = {"refused": 0, "propagated": 0, "either": 0, "mods_after_use": 0}
 
+    uses_fn = any(m["body"][0] == "fcall" for m in spec["methods"].values())
+
+    def node_ref(name, calls):
+        """Fresh function built from the node's effective methods; in worlds with by-name recursion
+        the name FN denotes a fresh function built from the first root's effective methods."""
+        first = model.order[0]
+        if not uses_fn or name == first:
+            return ref_outcomes(spec, model.regs(name), calls, label)
+        out = []
+        rw = World(spec)
+        for q, c in enumerate(calls):
+            rw.new_func(f"R{q}", main=True)
+            for r_ in model.regs(first):
+                rw.register(f"R{q}", r_[0], r_[1] if len(r_) > 1 else None)
+            rw.new_func(f"N{q}")
+            for r_ in model.regs(name):
+                rw.register(f"N{q}", r_[0], r_[1] if len(r_) > 1 else None)
+            out.append(rw.call(f"N{q}", c))
+        return out
+
     def check_node(name, i, why):
         regs = model.regs(name)
         got = [canon_order(w.call(name, c)) for c in scen["corpus"]]
-        ref = [canon_order(o) for o in ref_outcomes(spec, regs, scen["corpus"], label)]
+        ref = [canon_order(o) for o in node_ref(name, scen["corpus"])]
         trace.append([name, got])
         if got != ref:
             j = next(j for j, (a, b) in enumerate(zip(got, ref)) if a != b)
@@ -408,7 +433,7 @@ def execute(scen):
                 continue
             model.nodes[op["node"]]["used"] = True
             got = canon_order(w.call(op["node"], op["c"]))
-            ref = canon_order(ref_outcomes(spec, model.regs(op["node"]), [op["c"]], label)[0])
+            ref = canon_order(node_ref(op["node"], [op["c"]])[0])
             trace.append(got)
             if got != ref:
                 violation = {"clause": "a node differs from a fresh function built from its parents' methods plus its own",
